@@ -1,6 +1,6 @@
 """C10 -- a failing user function is never cached and leaves dds and the store clean."""
 from contracts import api
-from ._api_common import TRUSTED_API, owner
+from ._api_common import TRUSTED_API, owner, _AnyApiClause
 
 ID = "C10"
 LEVEL = "proof"
@@ -13,7 +13,7 @@ TRUSTED = TRUSTED_API
 ASSUMPTIONS = ["A-USER", "A-DET", "A-LOG", "A-FLOAT", "A-ALIAS"]
 LEVEL_TEXT = "Deductive proof of the exceptional postconditions over an explicit effect trace, for every exception class (BaseException*) and every pre-state; the wrappers keep/eval/data_function contain no except clause (checked syntactically)."
 DESIGN_REF = "5 (C10)"
-REPLAY = {}
+REPLAY = _AnyApiClause()
 owns = owner("C10")
 
 
